@@ -17,6 +17,7 @@ func init() {
 				{Name: "HarnessC03NonEmptyPathParams", Bounds: "paths section nil / empty / named placeholder / empty placeholder"},
 				{Name: "HarnessC03Items", Bounds: "array parameter with/without items, nested array items, body schema array with/without items, response header array with/without items"},
 				{Name: "HarnessC10WholeValidate", Bounds: "rule sequence and early-stop policy of the real (*SpecValidator).Validate under stubs"},
+				{Name: "HarnessC03Ancestry", Bounds: "3 definitions, each inheriting (allOf [$ref, inline]) from none or one solver-chosen definition (itself included) and declaring one property from {p,q(,r)}; oracle: no duplicate property along the ancestry, no cycle; map orders permuted; references resolved by the local-reference stub"},
 			},
 			Assumptions: specAssume, Outside: specOutside,
 		},
@@ -25,6 +26,7 @@ func init() {
 				{Name: "HarnessC07ParamNames", Bounds: "defaults and examples traversals over one operation whose parameter (body with a schema tree / simple / array with items) is named from {body, a.a, x.y, a.b.a, \"\", a., .a, default, items.default}; responses present or nil; continue-on-errors symbolic"},
 				{Name: "HarnessC03NonEmptyPathParams", Bounds: "nil sections"},
 				{Name: "HarnessC10WholeValidate", Bounds: "whole Validate under stubs, both continue-on-errors modes"},
+				{Name: "HarnessC03Ancestry", Bounds: "inheritance graphs over 3 definitions incl. self-inheritance and cycles: the ancestry rules terminate"},
 				{Name: "HarnessC09Definitions", Bounds: "definition and property names from small alphabets incl. overlapping ones"},
 			},
 			Assumptions: specAssume, Outside: append([]string{"crashes inside loader/analyser/expander; anything reached only through unresolved references"}, specOutside...),
